@@ -4,6 +4,7 @@ import (
 	"fmt"
 	"time"
 
+	ristretto "github.com/dgraph-io/ristretto/v2"
 	"verif/harness/lab"
 )
 
@@ -32,7 +33,19 @@ func runGatedRandom(c *Ctx) {
 			cfg.CostFn = "keycost"
 			costs = append(costs, 0, 0)
 		}
-		cfg.MaxCost = int64(nk) * (13 + 56) * 2
+		cfg.MaxCost = int64(nk) * (13 + ristretto.VerifItemSize()) * 2
+		if i%4 == 3 {
+			// tight capacity: everything still always fits (each key at its largest possible cost), but there is no
+			// slack that could hide capacity leaked by wrong cost bookkeeping
+			per := int64(5)
+			if cfg.CostFn == "keycost" {
+				per = 13
+			}
+			if !cfg.IgnoreInternalCost {
+				per += ristretto.VerifItemSize()
+			}
+			cfg.MaxCost = int64(nk) * per
+		}
 		if i%6 == 5 {
 			costs = append(costs, cfg.MaxCost+1) // larger than the whole cache: rejected
 		}
